@@ -6,14 +6,14 @@ HC = dict(unit="hchunks_u.c", file="hdf/src/hchunks.c", objbits=10)
 # bounded stand-ins: the whole seek <-> chunk <-> array chain on the real static helpers
 ob("chunk_roundtrip_q", "C04", entry="h_chunk_roundtrip", mode="bounded",
    bound="rank<=2, dim_length<=8, chunk_length 1..8 (any, incl. non-dividing and > dim), nt_size in {1,2,4,8}",
-   defines=["MAXR=2", "MAXE=8"], unwind=3, cex_unwind=3, timeout=600, **HC)
+   defines=["MAXR=2", "MAXE=8"], unwind=3, cex_unwind=3, timeout=300, **HC)
 ob("chunk_num_injective_q", "C04", entry="h_chunk_num_injective", mode="bounded",
    bound="rank<=2, dim_length<=8, chunk_length 1..8, nt_size in {1,2,4,8}",
-   defines=["MAXR=2", "MAXE=8"], unwind=3, cex_unwind=3, timeout=600, **HC)
+   defines=["MAXR=2", "MAXE=8"], unwind=3, cex_unwind=3, timeout=300, **HC)
 
 ob("chunk_roundtrip_r3", "C04", entry="h_chunk_roundtrip", mode="bounded",
    bound="rank<=3, dim_length<=5, chunk_length 1..5, nt_size in {1,2,4,8}",
-   defines=["MAXR=3", "MAXE=5"], unwind=4, cex_unwind=4, timeout=600, **HC)
+   defines=["MAXR=3", "MAXE=5"], unwind=4, cex_unwind=4, timeout=300, **HC)
 ob("chunk_roundtrip_t", "C04", entry="h_chunk_roundtrip", mode="bounded", tier="thorough",
    bound="rank<=3, dim_length<=12, chunk_length 1..12 (any, incl. non-dividing and > dim), nt_size in {1,2,4,8}",
    defines=["MAXR=3", "MAXE=12"], unwind=4, cex_unwind=4, timeout=3000, **HC)
@@ -37,19 +37,38 @@ ob("seek_pos_chunk", "C04", entry="h_seek_pos_chunk", enforce="update_seek_pos_c
 ob("chunk_indices_seek", "C04", entry="h_chunk_indices_seek", enforce="update_chunk_indices_seek", loopcls="P", **HL)
 
 # ----------------------------------------------------------------------------- mcache.c
-# bounded protocol runs on heaps built by the real mcache_open/mcache_get; 128 = HASHSIZE loops
-MC = dict(unit="mcache_u.c", file="hdf/src/mcache.c", mode="bounded", objbits=10, unwind=5, cex_unwind=5,
-          flags=["--unwindset", "mcache_open.0:129,mcache_open.3:129,mcache_close.2:129",
-                 "--max-field-sensitivity-array-size", "300"],
-          trusted=["st_pgin/st_pgout: page callbacks modelled as a byte store per page number"])
-ob("mcache_protocol", "C04", entry="h_mcache_protocol", timeout=300,
-   bound="<=3 pages, cache size 1..2, 3 get/put steps (pages may stay pinned), page size 2 bytes, allocation succeeds", **MC)
-ob("mcache_close", "C04", entry="h_mcache_close", timeout=300,
-   bound="<=3 pages, cache size 1..2, 2 get/put steps, allocation succeeds", **MC)
-ob("mcache_evict_fail", "C04", entry="h_mcache_evict_fail", timeout=300,
-   bound="2..3 pages, cache size 1, pgout fails once during eviction", **MC)
-ob("mcache_open_oom", "C04", entry="h_mcache_open_oom", timeout=300,
-   bound="<=3 pages, any allocation inside mcache_open may fail", **MC)
+# Bounded protocol runs on heaps built by the real mcache_open/mcache_get.  Every schedule of 3
+# operations (page x {get+hold, put clean, modify+put dirty}) runs on a fresh cache with symbolic
+# page contents; schedules are enumerated concretely (a symbolic schedule merges queue pointers:
+# no answer), split over obligations by range.
+MC = dict(unit="mcache_u.c", file="hdf/src/mcache.c", mode="bounded", objbits=12, unwind=140, cex_unwind=140,
+          flags=["--max-field-sensitivity-array-size", "300"], timeout=300,
+          trusted=["st_pgin/st_pgout: page callbacks modelled as a byte store per page number",
+                   "h4v_malloc/h4v_calloc: allocation succeeds unless fault injection (k-th allocation fails) is on"])
+
+
+def mcache_sched(tag, cache, npg, chunk, tier):
+    total = (3 * npg) ** 3
+    for lo in range(0, total, chunk):
+        hi = min(total, lo + chunk)
+        ob(f"mcache_protocol_{tag}_{lo}", "C04", entry="h_mcache_protocol", tier=tier,
+           bound=f"{npg} pages, cache size {cache}, schedules {lo}..{hi - 1} of the {total} 3-step get/put schedules, "
+                 "page size 8 bytes, allocation and callbacks succeed",
+           defines=[f"MAXCACHE={cache}", f"NPG={npg}", "NSTEPS=3", f"SCHED_LO={lo}", f"SCHED_HI={hi}"],
+           **dict(MC, timeout=300 if tier == "quick" else 1200))
+
+
+mcache_sched("c1p2", 1, 2, 27, "quick")
+mcache_sched("c2p3", 2, 3, 81, "thorough")
+mcache_sched("c1p3", 1, 3, 81, "thorough")
+ob("mcache_close", "C04", entry="h_mcache_protocol",
+   bound="2 pages, cache size 1, schedules 100..117, then mcache_close",
+   defines=["MAXCACHE=1", "NPG=2", "NSTEPS=3", "SCHED_LO=100", "SCHED_HI=118", "WITH_CLOSE"], **MC)
+ob("mcache_evict_fail", "C04", entry="h_mcache_evict_fail",
+   bound="2 pages, cache size 1, pgout fails once during eviction", defines=["MAXCACHE=1", "NPG=2"], **MC)
+for k in (2,):
+    ob(f"mcache_open_oom{k}", "C04", entry="h_mcache_open_oom",
+       bound=f"3 pages, allocation number {k} inside mcache_open fails", defines=["MAXCACHE=2", "NPG=3", f"FAIL_AT={k}"], **MC)
 
 prop("C04",
      residual="equality of reads across layouts (a relation between two complete stacks); HMCPread/HMCPwrite loops, "
